@@ -679,6 +679,11 @@ Definition any_running (s : state) : bool :=
   existsb (fun j => negb (j_removed j) && is_running j) (st_jobs s).
 
 (** a new runner on the same store (NewPipelineRunner / initialLoadFromStore); jobs that are not in the store are gone *)
+(** a job that the store does not know: it is gone (the record only keeps the job ids stable) *)
+Definition tombstone (j : job) : job :=
+  Job (j_pipe j) (j_created j) (j_start j) (j_end j) (j_completed j) true (j_delay j) false (j_tasks j) (j_env j)
+      (j_vars j) (j_user j) (j_lasterr j) None 0 false true.
+
 Definition do_restart (s : state) : option state :=
   match st_shutg s with
   | None =>
@@ -686,7 +691,7 @@ Definition do_restart (s : state) : option state :=
         let pjs := default [] (st_store s) in       (* no store file: an empty state is loaded *)
         let jobs' := imap (fun i j => match find (fun pj => Nat.eqb (pj_id pj) i) pjs with
                                       | Some pj => from_pjob pj
-                                      | None => remove_job j
+                                      | None => tombstone j
                                       end) (st_jobs s) in
         Some (State (st_defs s) jobs' [] false (st_now s) false (st_ghost s) (st_store s) (st_logs s) None)
       else None
@@ -704,8 +709,8 @@ Definition do_shutdown_begin (s : state) : option state :=
   | None =>
       if st_shut s then None
       else
-        let ids := concat (map snd (st_wait s)) in
-        let jobs' := imap (fun i j => if existsb (Nat.eqb i) ids then set_canceled j else j) (st_jobs s) in
+        (* every job on the wait list of its pipeline *)
+        let jobs' := imap (fun i j => if existsb (Nat.eqb i) (wl_get (st_wait s) (j_pipe j)) then set_canceled j else j) (st_jobs s) in
         Some (State (st_defs s) jobs' [] true (st_now s) (st_req s) (st_ghost s) (st_store s) (st_logs s) (Some false))
   end.
 
